@@ -33,6 +33,7 @@ var Scheme = func() *runtime.Scheme {
 var Kinds = func() []kmodel.KindInfo {
 	pko := "package-operator.run"
 	k := []kmodel.KindInfo{
+		{Group: TestGroup, Version: "v2", Kind: "Widget", Namespaced: true, HasStatus: true}, // Widget is served in two versions
 		{Group: TestGroup, Version: "v1", Kind: "Widget", Namespaced: true, HasStatus: true},
 		{Group: TestGroup, Version: "v1", Kind: "Gadget", Namespaced: true, HasStatus: true},
 		{Group: TestGroup, Version: "v1", Kind: "Gizmo", Namespaced: true, HasStatus: true},
